@@ -244,6 +244,7 @@ class Check(CheckBase):
             for r in range(len(CUE_REPL)):
                 cue.append({"op": "replace", "line": i, "repl": r})
         out += [{"kind": "cue", "cases": cue[i:i + 30]} for i in range(0, len(cue), 30)]
+        out.append({"kind": "satfill"})
         if not self.quick:
             asat = all_faults("akai", {"sat"})
             aother = all_faults("akai", {"vol", "file", "prog"})
@@ -264,6 +265,11 @@ class Check(CheckBase):
                 ok, klass, detail = run_bytes(bytes.fromhex(c["hex"]))
             elif c["kind"] == "fill":
                 ok, klass, detail = run_bytes(bytes([c["byte"]]) * (c["sectors"] * S))
+            elif c["kind"] == "satfill":
+                img, _ = subject("akai")
+                b = bytearray(img)
+                b[202 + 1600:202 + 1600 + 2 * A.SAT_N] = struct.pack("<H", c["fill"]) * A.SAT_N
+                ok, klass, detail = run_bytes(bytes(b[:c["cut"]]))
             elif c["kind"] == "cue":
                 ok, klass, detail = run_cue(c["case"])
             else:
@@ -288,6 +294,17 @@ class Check(CheckBase):
                 for sectors in (1, 2, 3, 4):
                     ok, klass, detail = run_bytes(bytes([byte]) * (sectors * S))
                     rep.case({"kind": "fill", "byte": byte, "sectors": sectors}, ok=ok, klass=klass, nontrivial=True, detail=detail, sig="fill:" + klass)
+        elif kind == "satfill":
+            # the whole 11386-word SAT filled with one value, on the complete image and on the image cut after the
+            # partition header / after the directory sector / in the middle of the data
+            img, _ = subject("akai")
+            sat_off = 202 + 100 * 16
+            for fill in (0x0000, 0x4000, 0x8000, 0xC000, 1, 3, 4, 11385, 11386, 0xFFFF):
+                b = bytearray(img)
+                b[sat_off:sat_off + 2 * A.SAT_N] = struct.pack("<H", fill) * A.SAT_N
+                for cut in (len(b), 3 * S, 3 * S + 100, 4 * S, 5 * S + 1, A.HDR_END):
+                    ok, klass, detail = run_bytes(bytes(b[:cut]))
+                    rep.case({"kind": "satfill", "fill": fill, "cut": cut}, ok=ok, klass=klass, nontrivial=True, detail=detail, sig="satfill:" + klass)
         elif kind == "cue":
             for c in shard["cases"]:
                 if hangs >= 3:
